@@ -146,3 +146,27 @@ func (p *VerifC09Pipeline) Abort() error {
 	p.over = true
 	return <-p.done
 }
+
+// ---- a fullsync job whose sink is the real httpDatasetSink (one sink object per job, reused across its runs,
+// like the pipeline Scheduler.toTriggeredJobs builds once) posting to an in-process hub endpoint ----
+
+type VerifC09HttpSink struct {
+	sink   *httpDatasetSink
+	runner *Runner
+}
+
+func VerifC09NewHttpSink(endpoint string, store *server.Store) *VerifC09HttpSink {
+	return &VerifC09HttpSink{
+		sink:   &httpDatasetSink{Endpoint: endpoint, Store: store, logger: zap.NewNop().Sugar()},
+		runner: &Runner{store: store, eventBus: server.NoOpBus(), statsdClient: &statsd.NoOpClient{}, logger: zap.NewNop().Sugar()},
+	}
+}
+
+func (v *VerifC09HttpSink) Start() error { return v.sink.startFullSync(v.runner) }
+func (v *VerifC09HttpSink) Process(ents []*server.Entity) error {
+	if len(ents) == 0 {
+		return nil
+	}
+	return v.sink.processEntities(v.runner, ents)
+}
+func (v *VerifC09HttpSink) End() error { return v.sink.endFullSync(context.Background(), v.runner) }
